@@ -43,7 +43,9 @@ pub fn scenario(sub: u64) -> Option<(String, bool, u64)> {
     // 0 drop, 1 cancel + read terminal + drop, 2 cancel twice then drop,
     // 3 drop while the server answers the Cancel with Connection.Close, 4 ... with Channel.Close
     // 5 the consumer is dropped while its thread is unwinding from a panic (caught)
-    let mode = rng.below(6);
+    // 6 drop, with bystander B sitting on a backlog of more than 65535 unread deliveries (no prefetch
+    //   limit, a slow reader): all of them, in order, then the terminal message
+    let mode = if sub == 6 || rng.chance(1, 12) { 6 } else { rng.below(6) };
     let pre = rng.range(0, 3);
     let (stream, peer) = mock_pair();
     let broker = Broker::start(peer.clone(), BrokerCfg { on_cancel: if mode == 3 { 1 } else if mode == 4 { 2 } else { 0 }, ..BrokerCfg::default() });
@@ -72,12 +74,30 @@ pub fn scenario(sub: u64) -> Option<(String, bool, u64)> {
         expect_c.push(dtag);
         dtag += 1;
     }
+    if mode == 6 {
+        let n = 65536 + rng.range(1, 3000);
+        let before = peer.sh.st.lock().unwrap().episodes_done;
+        let mut pushes = 0u64;
+        let mut batch: Vec<AMQPFrame> = Vec::new();
+        for i in 0..n {
+            batch.extend(delivery(id1, &tb, dtag, b"x"));
+            expect_b.push(dtag);
+            dtag += 1;
+            if batch.len() >= 3000 || i + 1 == n {
+                peer.push_frames(&batch);
+                pushes += 1;
+                batch.clear();
+            }
+        }
+        // let the I/O thread work through them before anything else happens
+        peer.wait(|s| s.episodes_done >= before + pushes || s.dropped, Duration::from_secs(20));
+    }
     if delayed {
         amiquip::verif::set_sched_delay(2, 4000);
     }
     let mut a_seen: Vec<u64> = Vec::new();
     match mode {
-        0 | 3 | 4 => drop(a),
+        0 | 3 | 4 | 6 => drop(a),
         5 => {
             let r = std::panic::catch_unwind(std::panic::AssertUnwindSafe(move || {
                 let _owned = a;
@@ -107,7 +127,7 @@ pub fn scenario(sub: u64) -> Option<(String, bool, u64)> {
         amiquip::verif::set_sched_delay(2, 0);
     }
     // the bystanders still work (where the scenario leaves them a channel)
-    if mode < 3 || mode == 5 {
+    if mode < 3 || mode == 5 || mode == 6 {
         peer.push_frames(&delivery(id1, &tb, dtag, b"b2"));
         expect_b.push(dtag);
         dtag += 1;
@@ -148,7 +168,16 @@ pub fn scenario(sub: u64) -> Option<(String, bool, u64)> {
             }
         }
     };
-    let (got_b, disc_b) = drain(&rb);
+    let (mut got_b, disc_b) = drain(&rb);
+    if mode == 6 {
+        // compact form for the long backlog: [how many were expected] and [the length of the
+        // longest prefix of what arrived that is exactly what was expected, then whatever follows]
+        let k = got_b.iter().zip(expect_b.iter()).take_while(|(g, e)| g == e).count();
+        let mut compact = vec![k as u64];
+        compact.extend(got_b[k..].iter().take(20));
+        got_b = compact;
+        expect_b = vec![expect_b.len() as u64];
+    }
     let (got_c, disc_c) = drain(&rc);
     let _ = broker.stop();
     let term = format!(
@@ -176,13 +205,14 @@ pub fn run(a: &Args) {
     let subs: Vec<u64> = if let Some(pos) = a.rest.iter().position(|x| x == "--line") {
         vec![a.rest[pos + 1].split_whitespace().last().unwrap().parse().unwrap()]
     } else {
-        (0..a.n).map(|_| rng.next()).collect()
+        // the backlog scenario is always there (seed 6), the rest is random
+        std::iter::once(6u64).chain((1..a.n).map(|_| rng.next())).collect()
     };
     // one at a time: the scheduling delay is process-wide
     for s in subs {
         match scenario(s) {
             Some((term, delayed, mode)) => {
-                sink.count(["drop", "cancel-read-drop", "cancel-twice-drop", "drop-vs-server-connection-close", "drop-vs-server-channel-close", "drop-while-unwinding"][mode as usize]);
+                sink.count(["drop", "cancel-read-drop", "cancel-twice-drop", "drop-vs-server-connection-close", "drop-vs-server-channel-close", "drop-while-unwinding", "drop-beside-a-backlog-of-65536+"][mode as usize]);
                 if delayed {
                     sink.count("io-thread-slow-between-reply-and-notice");
                 }
